@@ -38,8 +38,10 @@ def window_names():
 @st.composite
 def case_full(draw, tier):
     N = draw(st.one_of(st.integers(16, 300), gens.loguniform_int(300, 6000 if tier == "quick" else 60000)))
+    if tier == "thorough" and draw(st.integers(0, 19)) == 19:
+        N = draw(st.integers(70000, 300000))          # a few records with segment lengths beyond 2^16
     mode = draw(st.sampled_from(["auto", "csd", "csd"]))
-    cfg = draw(gens.analysis_config(N, Jmax=120, Kmax=60))
+    cfg = draw(gens.analysis_config(N, Jmax=120 if N < 70000 else 40, Kmax=60 if N < 70000 else 8))
     case = {"N": N, "mode": mode, "cfg": cfg, "fs": draw(st.sampled_from([1.0, 2.0, 1000.0, 0.37, 2.0 ** -6])),
             "rec": draw(gens.pair(N, rel_kinds=REL_W) if mode == "csd" else gens.record(N))}
     return case
